@@ -146,6 +146,32 @@ func (x *Exec) Verify() {
 	// vacuity canary: the precondition must be satisfiable
 	x.canary(cfg, "pre-satisfiable", token.NoPos)
 	work := []*Config{cfg}
+	if cs := x.c.Options["cases"]; cs != "" {
+		// case split requested by the contract: each case is verified
+		// separately, and the cases must cover the precondition
+		work = nil
+		var all []Term
+		func() {
+			defer x.catch("option cases")
+			env := x.entryEnv(cfg)
+			for _, part := range splitTopLevel(cs, '|') {
+				e, err := ParseExpr(strings.TrimSpace(part))
+				if err != nil {
+					unsupported("option cases: %v", err)
+				}
+				t := x.specBool(env, e)
+				all = append(all, t)
+				c := cfg.clone()
+				c.st.assume(t)
+				c.old = c.st.clone()
+				work = append(work, c)
+			}
+			x.oblige(cfg, "cases-exhaustive", cs, Or(all...), nil, token.NoPos)
+		}()
+		if x.abstract {
+			return
+		}
+	}
 	for len(work) > 0 {
 		c := work[len(work)-1]
 		work = work[:len(work)-1]
